@@ -87,6 +87,11 @@ func (o OneOfSchema[KeyType]) UnserializeType(data any) (result any, err error) 
 		}
 	}
 
+	if !reflect.TypeOf(o.DiscriminatorFieldNameValue).AssignableTo(reflectedValue.Type().Key()) {
+		return result, &ConstraintError{
+			Message: fmt.Sprintf("Invalid key type for one-of: '%s'", reflectedValue.Type().Key()),
+		}
+	}
 	discriminatorValue := reflectedValue.MapIndex(reflect.ValueOf(o.DiscriminatorFieldNameValue))
 	if !discriminatorValue.IsValid() {
 		return result, &ConstraintError{
@@ -368,7 +373,13 @@ func (o OneOfSchema[KeyType]) findUnderlyingType(data any) (KeyType, Object, err
 
 	var foundKey *KeyType
 	if reflectedType.Kind() == reflect.Map {
-		myKey, mySchemaObj, err := o.validateMap(data.(map[string]any))
+		dataMap, isStringMap := data.(map[string]any)
+		if !isStringMap {
+			return nilKey, nil, &ConstraintError{
+				Message: fmt.Sprintf("Invalid type for one-of type: %T expected map[string]any.", data),
+			}
+		}
+		myKey, mySchemaObj, err := o.validateMap(dataMap)
 		if err != nil {
 			return nilKey, nil, err
 		}
